@@ -238,7 +238,9 @@ def run_queries(base, queries, mir, timeout_ms, fast_check, prop, cube_name, kno
         for sig, kf in listed:
             r2, m2, dt2 = check_formula(base, z3.And(q.formula, kf), timeout_ms)
             rec['solver_s'] += dt2
-            if r2 == 'sat':
+            if r2 == 'sat' and (q.world is None or not q.ops):
+                rec.setdefault('notes', []).append(f'known finding {sig}: the solver reproduces it on {q.name} (this obligation has no native replay; the finding is re-confirmed natively by the other cubes)')
+            elif r2 == 'sat':
                 ok, det = replay_model(q, m2, mir, fast_check); rec['replayed'] += 1
                 if ok: rec['known'].append({'signature': sig, 'query': q.name, 'what': active[sig].get('what', ''), 'example': {'world': det['world'], 'ops': det['ops'], 'real': det['real']}})
                 else: rec['inconclusive'].append(f'known finding {sig} / {q.name}: model does not reproduce natively: ' + json.dumps(det)[:1500])
